@@ -229,6 +229,12 @@ class GenExec(Exec):
 
     # ---- value plumbing
     def none_use(self, v, what):
+        if v is NONE:
+            # definitely None here: fine only if this point is unreachable (the obligation is `false` under the
+            # path condition)
+            self.oblige("none-use", z3.BoolVal(False), what,
+                        {"why": f"{what}: value is None here (TypeError / AttributeError instead of SerializationError)"})
+            raise PathEnd()
         if isinstance(v, MaybeV):
             self.oblige("none-use", z3.Not(v.isnone), what,
                         {"why": f"{what}: value may be None here (TypeError / AttributeError instead of SerializationError)"})
@@ -237,7 +243,7 @@ class GenExec(Exec):
         return v
 
     def as_int(self, v):
-        if isinstance(v, MaybeV):
+        if isinstance(v, MaybeV) or v is NONE:
             v = self.none_use(v, "int use")
         return super().as_int(v)
 
